@@ -96,7 +96,7 @@ static void secp256k1_sha256_write(const secp256k1_hash_ctx *hash_ctx, secp256k1
 __CPROVER_requires(__CPROVER_rw_ok(hash, sizeof(*hash)) && (len == 0 || __CPROVER_r_ok(data, len)) && __CPROVER_r_ok(hash_ctx, sizeof(*hash_ctx)))
 __CPROVER_requires(hash_ctx->fn_sha256_compression == verif_compress)
 __CPROVER_requires(hash->bytes <= UINT64_MAX - len)                                     /* the function's own precondition (VERIFY_CHECK) */
-__CPROVER_requires(g_cw_off < 64 && g_sk < 8 && g_cw_blk <= (UINT64_MAX >> 6) && g_cw_hit >= 0 && g_cw_hit < 1000 && g_c_calls <= (SIZE_MAX >> 1))
+__CPROVER_requires(g_cw_off < 64 && g_sk < 8 && g_cw_blk <= (UINT64_MAX >> 6) && g_cw_hit >= 0 && g_cw_hit < 1000 && g_c_calls <= ((size_t)1 << 62))
 __CPROVER_requires(g_c_blocks == hash->bytes / 64 && hash->s[g_sk] == g_c_cur)
 __CPROVER_assigns(*hash, g_c_calls, g_c_blocks, g_cw_hit, g_cw_byte, g_c_cur, g_c_chain_bad, g_c_bad)
 __CPROVER_ensures(hash->bytes == W_B1)
@@ -105,7 +105,8 @@ __CPROVER_ensures((W_B0 / 64 <= g_cw_blk && g_cw_blk < W_B1 / 64)
     ? (g_cw_hit == __CPROVER_old(g_cw_hit) + 1 && g_cw_byte == W_STREAM(W_WP))
     : (g_cw_hit == __CPROVER_old(g_cw_hit) && g_cw_byte == __CPROVER_old(g_cw_byte)))
 __CPROVER_ensures(g_cw_off < W_B1 % 64 ==> hash->buf[g_cw_off] == W_STREAM((W_B1 / 64) * 64 + g_cw_off))
-__CPROVER_ensures(g_c_calls >= __CPROVER_old(g_c_calls) && g_c_bad == __CPROVER_old(g_c_bad) && g_c_chain_bad == __CPROVER_old(g_c_chain_bad))
+__CPROVER_ensures(g_c_calls >= __CPROVER_old(g_c_calls) && g_c_calls - __CPROVER_old(g_c_calls) <= W_B1 / 64 - W_B0 / 64      /* no call is empty: at most one call per block */
+    && g_c_bad == __CPROVER_old(g_c_bad) && g_c_chain_bad == __CPROVER_old(g_c_chain_bad))
 __CPROVER_ensures((g_c_calls == __CPROVER_old(g_c_calls)) == (W_B1 / 64 == W_B0 / 64))       /* a compression call happens iff a block completes */
 __CPROVER_ensures(hash->s[g_sk] == g_c_cur && (g_c_calls == __CPROVER_old(g_c_calls) ==> g_c_cur == __CPROVER_old(g_c_cur)))
 __CPROVER_ensures(len == 0 ==> (hash->buf[g_cw_off] == __CPROVER_old(hash->buf[g_cw_off]) && g_c_calls == __CPROVER_old(g_c_calls)))
